@@ -31,6 +31,7 @@ GEN_ZERO = 7
 GEN_ONE = 10
 
 TOL_LP = 1e-6
+GRB_PARAMS = {'Threads': 1, 'TimeLimit': 5}
 TOL_SOC = 1e-5
 
 
@@ -635,7 +636,7 @@ def solve_scipy(Q):
         cons = LinearConstraint(Q['A'], bl, bu)
     try:
         res = milp(c=Q['obj'], constraints=cons, bounds=Bounds(lb, ub), integrality=integ,
-                   options=dict(time_limit=20.0))
+                   options=dict(time_limit=5.0))
     except Exception as e:   # scipy refuses the input (e.g. inf in a matrix)
         return ('other', repr(e)[:80])
     if res.status == 0:
@@ -653,13 +654,13 @@ _ENV = [None]
 def _env():
     import gurobipy as gp
     if _ENV[0] is None:
-        _ENV[0] = gp.Env(params={'OutputFlag': 0})
+        _ENV[0] = gp.Env(params={'OutputFlag': 0, 'Threads': 1})
     return _ENV[0]
 
 
 def _grb_finish(g):
     g.Params.DualReductions = 0
-    g.Params.TimeLimit = 20
+    g.Params.TimeLimit = 5
     g.optimize()
     st = g.Status
     if st == 2:
@@ -885,6 +886,12 @@ def classes_of(F, text, outcome, rec, injected):
         cl.add('exponent-notation-in-text')
     if re.search(r'\de-\d', text):
         cl.add('negative-exponent-in-text')
+    if re.search(r'^ c\d+: - ', text, re.M):
+        cl.add('row-leading-minus')
+    if re.search(r'^ obj: - ', text, re.M):
+        cl.add('objective-leading-minus')
+    if re.search(r'^ obj: *$', text, re.M):
+        cl.add('objective-empty-in-text')
     cl.add('cls-' + F['cls'])
     cl.add('mode-' + rec['mode'])
     cl.add('dir-' + rec['dir'])
@@ -1035,13 +1042,13 @@ def _replay(job, phase):
         import rsome.lp as rlp
         # gurobi first: the default MILP interface overwrites the bounds of binaries in the cached formula
         if rec['mode'] != 'dual' and not injected:
-            m.solve(grb_solver, display=False)
+            m.solve(grb_solver, display=False, params=GRB_PARAMS)
             direct['gurobi'] = _sol_outcome(m.solution, grb=True)
             if not F['qmat']:
                 m.solve(display=False)
                 direct['default'] = _sol_outcome(m.solution)
         else:
-            direct['gurobi'] = _sol_outcome(grb_solver.solve(f, display=False), grb=True)
+            direct['gurobi'] = _sol_outcome(grb_solver.solve(f, display=False, params=GRB_PARAMS), grb=True)
             if not F['qmat']:
                 direct['default'] = _sol_outcome(rlp.def_sol(f, display=False))
     except Exception as e:   # solver-interface trouble is not this property's business
